@@ -39,8 +39,8 @@ class Job:
     describe: Optional[Callable[[str, Dict[str, Any]], Any]] = None
     must_exhaust: bool = False  # True: an un-exhausted tree is reported as inconclusive (exit 2); default: evidence is downgraded to 'exploration'
     twin_budget: float = 60.0
-    max_samples: int = 1
-    validate_limit: int = 12  # how many explored (PASS) paths are re-executed concretely outside the engine
+    max_samples: int = 3
+    validate_limit: int = 120  # how many explored (PASS) paths are re-executed concretely outside the engine, one after the other in ONE process
 
 
 def load_known(pid: str):
@@ -119,6 +119,10 @@ def run_check(pid: str, tier: str, jobs: List[Job], functions: List[str], assump
     totals = dict(paths=0, PASS=0, SKIP=0, TRUNC=0, unknown=0, decisions=0, solver_queries=0, solver_seconds=0.0, replayed=0)
     artefacts = []
     extra = dict(extra or {})
+    only = os.environ.get("VERIF_ONLY_JOBS")
+    if only and os.environ.get("VERIF_REPO", "/repo") != "/repo":
+        # seed triage only (a patched scratch worktree): never thins a run against /repo itself
+        jobs = [j for j in jobs if any(o in j.name for o in only.split(","))]
 
     # 0. property-specific concrete preparation (model validation etc.)
     if pre is not None:
@@ -228,10 +232,15 @@ def run_check(pid: str, tier: str, jobs: List[Job], functions: List[str], assump
         # (in a forked child: the code under test must not leave state in this process, from which later workers are forked)
         def _validate_all():
             out = []
-            for s in chosen:
-                v, d = chx.run_concrete(fn, s)
+            from engine.envmodel import adversarial_id
+
+            # one process runs the whole series, with id() recycling dead objects' numbers (engine/envmodel.py): whatever the
+            # code under test remembers from one case (memo tables, caches keyed by identity or by value) meets the next case
+            with adversarial_id():
+                results = [chx.run_concrete(fn, s) for s in chosen]
+            for i, (s, (v, d)) in enumerate(zip(chosen, results)):
                 desc = None
-                if job.describe:
+                if job.describe and (i < 12 or v != "PASS"):
                     try:
                         desc = chx.jsonable(job.describe(job.name, s))
                     except Exception as e:  # noqa: BLE001
